@@ -20,6 +20,7 @@ ck.assumptions = [
     'log_wal_entry returns Ok or Err nondeterministically and records what it was given (order of records is checked)',
     'DistributedTransaction::merged_delta / DeltaVector::cosine_similarity arbitrary (embedding arithmetic outside the claim); affected-key overlap is explored symbolically',
     'lock manager calls are recorded, not executed (C12 covers them)',
+    'when a second pending transaction is present it is a bystander: the call addresses the first transaction or an id not in the table',
     '<DistributedTransaction as Clone>::clone is a shallow snapshot (the clone is only read)',
     'HashMap iteration: insertion order (quick) / all orders (thorough)',
 ]
@@ -159,6 +160,8 @@ for np_ in NP:
             st = ex.new_state()
             co = Coord(st, np_, nv, other)
             q_tx = Int(z3.BitVec('q_tx', 64), False)
+            if other:
+                st.assume(q_tx.v != co.other)     # the second transaction is a bystander: calls address the first one or an unknown id
             q_shard = Int(z3.BitVec('q_shard', 64), False)
             vote = st.fresh('PrepareVote', 'vote')
             res = run(st, 'DistributedTxCoordinator::record_vote', [ref(st.roots['co']), q_tx, q_shard, vote])
@@ -223,6 +226,8 @@ for np_ in NP:
                 st = ex.new_state()
                 co = Coord(st, np_, nv, other)
                 q_tx = Int(z3.BitVec('q_tx', 64), False)
+                if other:
+                    st.assume(q_tx.v != co.other)
                 args = [ref(st.roots['co']), q_tx] + ([ref(Str(text='reason'))] if call == 'abort' else [])
                 res = run(st, 'DistributedTxCoordinator::' + call, args)
                 ck.note_path_problem(res, f'{call} participants={np_} votes={nv} other={other}')
